@@ -90,6 +90,7 @@ def compress(ex, st, pos, kw, node, star, dstar):
     lib.used('A2 zlib: decompress(compress(b)) = b')
     v = pos[0]; x = z3.If(Val.is_y(v), Val.yv(v), Val.sv(v))
     c = COMP(x); st.assume(DECOMP(c) == x)              # the inverse axiom is instantiated where the compressed value is produced
+    st.g['compressed'] = st.g.get('compressed', []) + [c]
     return [(st, ('val', Val.y(c)))]
 
 
